@@ -113,6 +113,13 @@ func genPlay(rng *rand.Rand, i int) *play {
 		sb.WriteString("  moody expects always: moodt < 100\n")
 		feat("mood-activated-auditor")
 	}
+	if rng.Intn(3) == 0 {
+		// an expects clause that fails to evaluate in every round where its
+		// signal arrives, without stopping the play: error reports go to the
+		// collector while the audit loop keeps assigning its variables
+		fmt.Fprintf(&sb, "  broken expects always: mood + [%s speed] > 1\n", first)
+		feat("failing-expects-evaluation")
+	}
 	sb.WriteString("  helper watches recent\n  helper only helps\n")
 	sb.WriteString("end\n")
 	feat("auditors-with-variables")
